@@ -67,7 +67,7 @@ structure St where
   onDisk : Nat → Bool
   seen : Nat → Bool
   /-- ghost: an upper bound of every height a header or block was ever written at; only bounds the (in Go unbounded)
-      "delete number entries above" loop of `reorg`.  It is raised by the mixed-history layer (`Model.ChainMixed`) where
+      "delete number entries above" loop of `insert`.  It is raised by the mixed-history layer (`Model.ChainMixed`) where
       headers run ahead of the blocks; in histories fed by full imports it stays 0 (the heads bound the index). -/
   top : Nat := 0
 
@@ -117,20 +117,94 @@ def txDifference (a b : List Nat) : List Nat := a.filter (fun t => !b.contains t
 
 /-! ### BlockChain.insert, reorg, WriteBlockWithState -/
 
-/-- `BlockChain.insert(block)`: number entry and head pointers; nothing is deleted. -/
-def insertHead (s : St) (b : Blk) : St :=
-  let updateHeads := s.canon b.number != some b.id
-  { s with
-    canon := upd s.canon b.number (some b.id)
-    head := b.id
-    hhead := if updateHeads then b.id else s.hhead
-    fhead := if updateHeads then b.id else s.fhead }
+/-- the `delFn` of `BlockChain.SetHead` (fix b4ec96a): lookups that point at the removed block are dropped -/
+def dropLookupsOf (lk : Map Loc) (x : Blk) : List Nat → Map Loc
+  | [] => lk
+  | t :: ts =>
+    match lk t with
+    | some l => if l.blk = x.id then dropLookupsOf (upd lk t none) x ts else dropLookupsOf lk x ts
+    | none => dropLookupsOf lk x ts
 
-/-- `for i := n; ; i++ { if GetCanonicalHash(i) == {} { break }; DeleteCanonicalHash(i) }` (reorg, fix 4152cc7, and
-    HeaderChain.WriteHeader).  The Go loop has no bound; the fuel passed by the callers (`reorgFuel`: height of the
-    header head) exceeds the number of entries that can exist while nothing is indexed above the header head
-    (`delCanonAbove_clears` in Lemmas: under the invariant the loop stops at the gap, never on fuel).  Once the index is
-    already corrupt (known finding `sethead-stateless-leaves-index`) the bound is not justified and the replay stops. -/
+/-- `dropLookups(hash, number)` inside `BlockChain.insert` (fix 3f14ce8): the lookups that still point at the block
+    `o` indexed at height `n` are deleted (`GetBodyNoVersion(hash, number)`: the body key carries the number) -/
+def dropAt (store : Map Blk) (lk : Map Loc) (n o : Nat) : Map Loc :=
+  match store o with
+  | some y => if y.number = n then dropLookupsOf lk y y.txs else lk
+  | none => lk
+
+/-- `for i := number+1; ; i++ { old := GetCanonicalHash(i); if old == {} { break }; dropLookups(old, i); DeleteCanonicalHash(batch, i) }`:
+    reads go to the database as it was before the call (`pre`), deletions into the batch (`c`, `lk`) -/
+def dropAbove (store : Map Blk) (pre : Map Nat) : Nat → Nat → Map Nat → Map Loc → Map Nat × Map Loc
+  | 0, _, c, lk => (c, lk)
+  | f + 1, i, c, lk =>
+    match pre i with
+    | none => (c, lk)
+    | some o => dropAbove store pre f (i + 1) (upd c i none) (dropAt store lk i o)
+
+/-- `for hash, number := parent, number-1; …; number-- { old := GetCanonicalHash(number); if old == hash { break };
+    header := GetHeader(hash, number); if header == nil { break }; if old != {} { dropLookups(old, number) };
+    WriteCanonicalHash(batch, hash, number); if number == 0 { break }; hash = header.ParentHash }` -/
+def repointBelow (store : Map Blk) (pre : Map Nat) : Nat → Nat → Nat → Map Nat → Map Loc → Map Nat × Map Loc
+  | 0, _, _, c, lk => (c, lk)
+  | f + 1, hash, number, c, lk =>
+    if pre number = some hash then (c, lk)
+    else
+      match store hash with
+      | none => (c, lk)
+      | some hd =>
+        if hd.number ≠ number then (c, lk)
+        else
+          let lk' := match pre number with
+            | some o => dropAt store lk number o
+            | none => lk
+          let c' := upd c number (some hash)
+          match number with
+          | 0 => (c', lk')
+          | k + 1 => repointBelow store pre f hd.parent k c' lk'
+
+/-- bound for the (in Go unbounded) "entries above" loop: number entries exist at most up to the height of the heads, or
+    up to `top` when headers were imported on the same chain -/
+def indexFuel (s : St) : Nat :=
+  max s.top (max (match s.store s.head with | some x => x.number | none => 0)
+                 (match s.store s.hhead with | some x => x.number | none => 0))
+
+/-- `if old := GetCanonicalHash(number); old != {} { dropLookups(old, number) }`: the lookups into the block that the
+    inserted block replaces at its height -/
+def dropReplaced (s : St) (b : Blk) : Map Loc :=
+  match s.canon b.number with
+  | some o => dropAt s.store s.lookup b.number o
+  | none => s.lookup
+
+/-- the `updateHeads` part of `BlockChain.insert` (fix 3f14ce8), as one batch: the lookups into the replaced block are
+    dropped, the entries above are deleted together with the lookups into their blocks, stale entries below are re-pointed
+    to the block's ancestors (dropping the lookups into the blocks they named), and the block's own entry is written.
+    All reads see the database as it was before the call. -/
+def insertIndex (s : St) (b : Blk) : Map Nat × Map Loc :=
+  let r1 := dropAbove s.store s.canon (indexFuel s + 1) (b.number + 1) s.canon (dropReplaced s b)
+  let r2 := match b.number with
+    | 0 => r1
+    | k + 1 => repointBelow s.store s.canon (k + 1) b.parent k r1.1 r1.2
+  (upd r2.1 b.number (some b.id), r2.2)
+
+/-- `BlockChain.insert(block)` (after fix 3f14ce8).  The block head always moves.  If the block is not what the number
+    index holds at its height (`updateHeads`), the index and the lookups are brought in line with the block's chain
+    (`insertIndex`) and header head and fast head follow, all in one batch. -/
+def insertHead (s : St) (b : Blk) : St :=
+  let moves := s.canon b.number != some b.id
+  -- (a pair, so that the compiled model evaluates the batch once and not at every later read of the two maps)
+  let r := if moves then insertIndex s b else (s.canon, s.lookup)
+  { s with
+    canon := r.1
+    lookup := r.2
+    head := b.id
+    hhead := if moves then b.id else s.hhead
+    fhead := if moves then b.id else s.fhead }
+
+/-- `for i := n; ; i++ { if GetCanonicalHash(i) == {} { break }; DeleteCanonicalHash(i) }` (`HeaderChain.WriteHeader`;
+    the canon component of `dropAbove` is the same loop: `dropAbove_fst` in Lemmas).  The Go loop has no bound; the fuel
+    passed by the callers (height of the header head, `indexFuel`) exceeds the number of entries that can exist while
+    nothing is indexed above the header head (`delCanonAbove_clears` in Lemmas: under the invariant the loop stops at the
+    gap, never on fuel). -/
 def delCanonAbove (canon : Map Nat) : Nat → Nat → Map Nat
   | 0, _ => canon
   | f + 1, i =>
@@ -170,25 +244,14 @@ def reorgStep (x : Blk) (st : St) : St :=
   let st' := insertHead st x
   { st' with lookup := writeLookups st'.lookup x }
 
-/-- the second half of `reorg`: insert the new chain oldest-first (`foldr`: the lists are newest-first as in Go), delete
-    the canonical number assignments above the new head (fix 4152cc7), delete the lookups of `deleted \ added`. -/
-def reorgApply (s : St) (fuel : Nat) (oldChain newChain : List Blk) : St :=
+/-- the second half of `reorg`: insert the new chain oldest-first (`foldr`: the lists are newest-first as in Go) and
+    delete the lookups of `deleted \ added`.  Since 3f14ce8 `reorg` has no clean-up loop of its own: every re-inserted
+    block that replaces an entry clears the index above itself (`insertHead`). -/
+def reorgApply (s : St) (oldChain newChain : List Blk) : St :=
   let s1 := newChain.foldr reorgStep s
-  let s2 : St :=
-    match newChain with
-    | [] => s1
-    | top :: _ => { s1 with canon := delCanonAbove s1.canon (fuel + 1) (top.number + 1) }
   let deleted := oldChain.flatMap (·.txs)
   let added := newChain.flatMap (·.txs)
-  { s2 with lookup := delLookups s2.lookup (txDifference deleted added) }
-
-/-- bound for the (unbounded) deletion loop of `reorg`: number entries exist at most up to the height of the header
-    head (which is the block head unless a rewind fell back below its target), or up to `top` when headers were imported
-    on the same chain -/
-def reorgFuel (s : St) (old : Blk) : Nat :=
-  max s.top (match s.store s.hhead with
-    | some hh => max old.number hh.number
-    | none => old.number)
+  { s1 with lookup := delLookups s1.lookup (txDifference deleted added) }
 
 /-- `BlockChain.reorg(oldBlock, newBlock)`.  The two "reduce whoever is higher" loops are written as two calls of
     `reduce` towards the lower of the two numbers (one of them returns immediately).  `none` = the Go function returns
@@ -203,7 +266,7 @@ def reorg (s : St) (old new : Blk) : Option St :=
     | some (n, nc1) =>
       match walkBoth s.store (m + 1) o n with
       | none => none
-      | some (_, oc2, nc2) => some (reorgApply s (reorgFuel s old) (oc1 ++ oc2) (nc1 ++ nc2))
+      | some (_, oc2, nc2) => some (reorgApply s (oc1 ++ oc2) (nc1 ++ nc2))
 
 /-- the fork-choice rule of `WriteBlockWithState` -/
 def decideReorg (externTd localTd bnum hnum : Nat) (coin : Bool) : Bool :=
@@ -366,14 +429,6 @@ def importChain (s : St) (chain : List Blk) (coins : List (List Bool)) : Out × 
 
 /-! ### SetHead, Stop + reopen -/
 
-/-- the `delFn` of `BlockChain.SetHead` (fix b4ec96a): lookups that point at the removed block are dropped -/
-def dropLookupsOf (lk : Map Loc) (x : Blk) : List Nat → Map Loc
-  | [] => lk
-  | t :: ts =>
-    match lk t with
-    | some l => if l.blk = x.id then dropLookupsOf (upd lk t none) x ts else dropLookupsOf lk x ts
-    | none => dropLookupsOf lk x ts
-
 /-- the unwinding loop of `HeaderChain.SetHead`:
     `for hdr := CurrentHeader(); hdr != nil && hdr.Number > head; hdr = CurrentHeader() { delFn; DeleteHeader; DeleteTd;
      currentHeader = GetHeader(hdr.ParentHash, hdr.Number-1) }`; returns the final `currentHeader` (`none` = nil). -/
@@ -394,6 +449,20 @@ def delCanonRange (canon : Map Nat) (lo : Nat) : Nat → Map Nat
   | 0 => canon
   | i + 1 => if i + 1 > lo then delCanonRange (upd canon (i + 1) none) lo i else canon
 
+/-- `if currentBlock.Number > currentHeader.Number { currentBlock = GetBlock(currentHeader.Hash) }` followed by
+    `if !HasState(currentBlock.Root) { currentBlock = genesis }` and the nil check: the block head after a rewind to
+    the header `hcur`, never a block without state -/
+def pickHead (store : Map Blk) (hasState : Nat → Bool) (g hcur cb : Blk) : Blk :=
+  let nb : Option Blk := if hcur.number < cb.number then store hcur.id else some cb
+  let nb : Option Blk := match nb with
+    | some x => if hasState x.id then some x else some g
+    | none => none
+  nb.getD g
+
+/-- the same for the fast head (no state needed) -/
+def pickFast (store : Map Blk) (g hcur fb : Blk) : Blk :=
+  (if hcur.number < fb.number then store hcur.id else some fb).getD g
+
 /-- `BlockChain.SetHead(n)` (= `HeaderChain.SetHead` + the block/fast head rewinds + `loadLastState`). -/
 def setHead (s : St) (n : Nat) : Out :=
   match s.store s.hhead, s.store s.head, s.store s.fhead with
@@ -402,13 +471,8 @@ def setHead (s : St) (n : Nat) : Out :=
     let hcur : Blk := cur.getD s.genesis
     let s2 : St := { s1 with canon := delCanonRange s1.canon n hh.number, hhead := hcur.id }
     -- rewind the block head, never onto a block without state
-    let nb : Option Blk := if hcur.number < cb.number then s2.store hcur.id else some cb
-    let nb : Option Blk := match nb with
-      | some x => if s2.hasState x.id then some x else some s.genesis
-      | none => none
-    let nf : Option Blk := if hcur.number < fb.number then s2.store hcur.id else some fb
-    let nb := nb.getD s.genesis
-    let nf := nf.getD s.genesis
+    let nb := pickHead s2.store s2.hasState s.genesis hcur cb
+    let nf := pickFast s2.store s.genesis hcur fb
     -- loadLastState: the head block must be readable, otherwise the chain is reset (not modelled: unreachable)
     match s2.store nb.id with
     | none => ⟨s2, some .modelPanic⟩
@@ -582,6 +646,23 @@ structure SpecInv (s : St) : Prop where
   /-- a lookup resolves iff the transaction is in a canonical block, and then points at that block and position -/
   lookup : ∀ t l, s.lookup t = some l ↔
     (s.canon l.num = some l.blk ∧ ∃ x, s.store l.blk = some x ∧ x.txs[l.idx]? = some t)
+
+/-- C03 for a chain fed by full imports on which a rewind may have left the block head BELOW the header head
+    (`SetHead` onto a block whose state is gone falls back to a block with state — the header-first situation of the
+    statement): the head of the statement is the header head; block head and fast head are indexed blocks.  With the
+    three heads equal this is `SpecInv`. -/
+structure SpecLag (s : St) : Prop where
+  head : ∃ hh, s.store s.hhead = some hh
+  below : ∀ hh, s.store s.hhead = some hh → ∀ n, n ≤ hh.number →
+    ∃ x, up s.store (hh.number - n) s.hhead = some x ∧ x.number = n ∧ s.canon n = some x.id ∧
+      s.receipts x.id = true ∧ (s.td x.id).isSome = true
+  above : ∀ hh, s.store s.hhead = some hh → ∀ n, hh.number < n → s.canon n = none
+  lookup : ∀ t l, s.lookup t = some l ↔
+    (s.canon l.num = some l.blk ∧ ∃ x, s.store l.blk = some x ∧ x.txs[l.idx]? = some t)
+  /-- block head and fast head are stored blocks that the index holds at their heights; the state of the block head is
+      available -/
+  heads : ∃ cb fb, s.store s.head = some cb ∧ s.canon cb.number = some s.head ∧ s.hasState s.head = true ∧
+    s.store s.fhead = some fb ∧ s.canon fb.number = some s.fhead
 
 /-- C03 for the header chain -/
 structure HSpecInv (s : HSt) : Prop where
